@@ -47,3 +47,31 @@ Fixpoint cond_holds (c : cond) (it : item) : bool :=
   | CAnd c1 c2 => cond_holds c1 it && cond_holds c2 it
   | COr c1 c2 => cond_holds c1 it || cond_holds c2 it
   end.
+
+(* ---------------------------------------------------------------- _fetch_as_buffer: length of a cdata source *)
+(* what the helper can see of a cdata source x: whether its ctype is an array, ct->ct_size of that
+   ctype (total bytes of a fixed 'T[n]', -1 for an open 'T[]'), get_array_length(x), the item size *)
+Record srcdesc := mk_sd { sd_is_array : bool; sd_ct_size : Z; sd_length : Z; sd_isz : Z }.
+
+Inductive scond := SIsArray | SItemSizeKnown | SAnd (a b : scond).
+Inductive lenexpr :=
+| LUnknown                    (* -1 *)
+| LCtSize                     (* ct->ct_size *)
+| LLenTimesItem               (* get_array_length(x) * ct->ct_itemdescr->ct_size *)
+| LIf (c : scond) (a b : lenexpr).
+
+Fixpoint scond_holds (c : scond) (sd : srcdesc) : bool :=
+  match c with
+  | SIsArray => sd_is_array sd
+  | SItemSizeKnown => 0 <=? sd_isz sd
+  | SAnd a b => scond_holds a sd && scond_holds b sd
+  end.
+
+(* view->len as computed by the code *)
+Fixpoint src_len (e : lenexpr) (sd : srcdesc) : Z :=
+  match e with
+  | LUnknown => -1
+  | LCtSize => sd_ct_size sd
+  | LLenTimesItem => sd_length sd * sd_isz sd
+  | LIf c a b => if scond_holds c sd then src_len a sd else src_len b sd
+  end.
